@@ -25,7 +25,7 @@ ToSetRec(a) ==
    claims |-> a[18]]
 
 ToPod(a) == [new |-> FALSE, name |-> a[1], ord |-> a[2], member |-> a[3], match |-> a[4], owner |-> a[5],
-             phase |-> a[6], ready |-> a[7], term |-> a[8], rev |-> a[9], identOK |-> a[10], storOK |-> a[11]]
+             phase |-> a[6], ready |-> a[7], term |-> a[8], rev |-> a[9], identOK |-> a[10], storOK |-> a[11], uidOK |-> a[12]]
 
 ToRev(a) == [name |-> a[1], tmpl |-> a[2], num |-> a[3], created |-> a[4], owner |-> a[5],
              marker |-> a[6], sel |-> a[7], rank |-> a[8]]
